@@ -158,6 +158,18 @@ def tlc(work, module, cfg=None, workers=4, timeout=1800, env=None, heap="4g", ex
     return res
 
 
+def tlaps(work, module, timeout=1200):
+    """Check a proof module of spec/proofs with the TLA+ proof system. Returns the number of obligations proved;
+    anything else is a defect of the specification / proof (Infra), never a verdict about the code."""
+    d = stage_spec(work)
+    shutil.copy(os.path.join(SPEC, "proofs", module + ".tla"), d)
+    p = run(["tlapm", "--threads", str(min(8, NCPU)), "--cleanfp", module + ".tla"], cwd=d, timeout=timeout)
+    m = re.search(r"All (\d+) obligations? proved", p.stdout)
+    if p.returncode != 0 or not m:
+        raise Infra("tlapm %s: not all obligations proved\n%s" % (module, p.stdout[-3000:]))
+    return int(m.group(1))
+
+
 def tlc_ok(res):
     return res["error"] is None and not res["violated"] and res["rc"] == 0
 
